@@ -1236,3 +1236,7 @@ mod tests {
         }
     }
 }
+
+#[cfg(kani)]
+#[path = "/verif/kani/parquet/bloom_filter/mod.rs"]
+mod verif_kani;
